@@ -96,7 +96,7 @@ def run(ck):
     R7 = ck.rule('R11.7', "a refusal reaches a dispatcher: no call that (transitively) delivers an "
                  "event sits in a `try` whose handler catches EdzedCircuitError without "
                  "re-raising, except the three enumerated designated sinks", 'M0', 3)
-    R8 = ck.rule('R11.8', "abstract run of SBlock.event (22 scenarios: kind of event type x 'value' item x guard "
+    R8 = ck.rule('R11.8', "abstract run of SBlock.event (23 scenarios: kind of event type x 'value' item x guard "
                  "on entry x initialisation progress x handler outcome): a recursive event is refused and "
                  "leaves the outer guard set; the guard is set while a handler runs and released after every "
                  "outcome; a conditional event resolves by the truth value of 'value' (missing = false) and "
@@ -213,15 +213,25 @@ def run(ck):
                         isinstance(it.context_expr, ast.Attribute) and it.context_expr.attr == '_enable_event'
                         or '_enable_event' in norm(it.context_expr) for it in n.items):
                     n_sites += 1
-                    body_calls = [call_name(s.value) for s in n.body
+                    wbody = n.body
+                    # the single permitted call may be wrapped in a try whose handlers only report the error
+                    # and re-raise it (no event can be delivered from there: abort() delivers nothing)
+                    if len(wbody) == 1 and isinstance(wbody[0], ast.Try) and not wbody[0].orelse and \
+                            not wbody[0].finalbody and all(
+                                h.body and isinstance(h.body[-1], ast.Raise) and h.body[-1].exc is None and all(
+                                    isinstance(s_, ast.Expr) and isinstance(s_.value, ast.Call) and
+                                    call_name(s_.value) in ('abort', 'log_debug', 'log_warning', 'log_error')
+                                    for s_ in h.body[:-1]) for h in wbody[0].handlers):
+                        wbody = wbody[0].body
+                    body_calls = [call_name(s.value) for s in wbody
                                   if isinstance(s, ast.Expr) and isinstance(s.value, ast.Call)]
-                    single = len(n.body) == 1 and len(body_calls) == 1
+                    single = len(wbody) == 1 and len(body_calls) == 1
                     key = (fi.fid, body_calls[0] if body_calls else None)
                     ok = single and key in LIFT_TABLE and norm(n.items[0].context_expr) == 'self._enable_event'
                     if ok and key[1] == '_run_cb':
-                        c = n.body[0].value
+                        c = wbody[0].value
                         ok = bool(c.args) and is_const(c.args[0], 'enter')
-                    ck.ob(R3, f"{fi.fid} :: with _enable_event: {norm1(n.body[0]) if n.body else ''}", ok,
+                    ck.ob(R3, f"{fi.fid} :: with _enable_event: {norm1(wbody[0]) if wbody else ''}", ok,
                           f"documented exception: {LIFT_TABLE.get(key)}" if ok else
                           "the recursion guard is lifted at a site that is not one of the three "
                           "documented exceptions (or around more than the single permitted call)",
